@@ -9,7 +9,10 @@ to 50x132, initial files from a pool of UTF-8 texts (empty, unterminated, wide, 
 through EXINIT.  Each stream runs on the ASan+UBSan traced binary and must reach the quit command that ends it within the time
 bound: complete trace ending in the `exit' record, exit status 0, no sanitizer report.  The states recorded along the way are
 validated by TLC against spec/TraceInv.tla (valid UTF-8 lines, well-formed buffer table, undo cursor inside the log, cursor on
-an existing character and inside the window at every vi command boundary)."""
+an existing character and inside the window at every vi command boundary).  spec/ExParse.tla is the ex command-line splitter at
+index level with the safety property "no read beyond the terminator, outputs fit, progress"; TLC evaluates it on every short
+line and on long lines around the 512-byte limit, and a probe puts the same lines through the real ex_exec (exact heap
+allocation under ASan) comparing the split."""
 import os, sys, random, re, glob, subprocess
 sys.path.insert(0, os.path.dirname(os.path.dirname(os.path.abspath(__file__))))
 from common import *
@@ -143,6 +146,100 @@ def run_stream(ctx, st, safebin):
     return res
 
 
+def splitter(ctx, st):
+    """ExParse.tla against ex_exec: every line of <= L symbols of the alphabet, and long lines around the 512-byte limit, go
+    through the real splitter in a probe whose command string is an exact heap allocation (any read beyond the terminator is
+    an ASan report); the (loc, cmd, arg, txt) of every command are compared with what the specification computes, and the
+    specification's own verdict Safe(line) is required"""
+    import checks_util
+    from regexlib import gen_tables, split_range
+    from probe import run_probe
+    NA, L = 19, (4 if ctx.quick else 5)
+    total = sum(NA ** k for k in range(L + 1))
+    jobs = [dict(MODE="enum", LO=a, HI=b) for a, b in split_range(0, total, NCPU * (1 if ctx.quick else 4))]
+    shapes = []
+    for pre in ["", "s/", "s/a/", "g/", "g/a/s/", "1,", "'", "/", "/a/;", "!", "w !", "k", "é", "rs a\n", "se ", "  ", "a|", "\\"]:
+        for fill in ["a", "/", "\\", "|", "é", "1", "'a", "\\/"]:
+            for n in ((510, 511, 512, 513) if ctx.quick else (505, 509, 510, 511, 512, 513, 514, 520, 600)):
+                body = pre + fill * ((n - len(pre.encode())) // len(fill.encode()) + 1)
+                body = body.encode()[:n].decode("utf-8", "ignore")
+                shapes.append(list(body.encode()))
+    for k in range(NCPU):
+        lf = ctx.path("gen", "exparse_shapes%d.ndjson" % k)
+        with open(lf, "w") as f:
+            for x in shapes[k::NCPU]:
+                f.write(json.dumps(x) + "\n")
+        jobs.append(dict(MODE="list", IDXFILE=lf))
+    t0 = time.time()
+    tabs = gen_tables(ctx, jobs, module="Gen_ExParse", timeout=3000)
+    t1 = time.time()
+    exe = ctx.probe("exprobe")
+    shim = checks_util.build_execshim(ctx)
+
+    def shard(jp):
+        k, (job, path) = jp
+        cases = [json.loads(ln) for ln in open(path)]
+        work = ctx.path("exprobe%d" % k, "x")[:-2]
+        tr = os.path.join(work, "trace.ndjson")
+        reqs = [bytes(c["s"]).hex() or "-" for c in cases]
+        out, crash = run_probe(exe, reqs, cwd=work, timeout=2400, env_extra={"NEATVI_VERIF_TRACE": tr, "NEATVI_VERIF_LIGHT": "1", "LD_PRELOAD": shim,
+                                                                              "HOME": work})
+        got, cur = [], None
+        if os.path.exists(tr):
+            for ln in open(tr, "rb"):
+                try:
+                    r = json.loads(ln)
+                except ValueError:
+                    continue
+                if r.get("ev") == "req":
+                    cur = []
+                    got.append(cur)
+                elif r.get("ev") == "ec" and r.get("dep") == 0 and cur is not None:
+                    cur.append(r)
+        res = dict(cases=len(cases), cmds=0, unsafe=[], crashes=[], drift=[], hangs=[])
+        hx = lambda bs: bytes(bs).hex()
+        for i, c in enumerate(cases):
+            line = bytes(c["s"]).decode("utf-8", "replace")
+            if crash[i] and not crash[i].get("skipped"):
+                (res["hangs"] if crash[i]["rc"] == 124 else res["crashes"]).append((line, crash[i]))
+                continue
+            if not c["safe"]:
+                res["unsafe"].append((line, c))
+            if out[i] != "ok" or i >= len(got):
+                continue
+            # ec_glob rewrites an empty address to "%" in place before the hook records it
+            exp = [(hx(x["loc"]) or ("25" if x["known"] and x["cmd"][:1] in ([103], [118]) else ""), hx(x["cmd"]), hx(x["arg"]),
+                    (hx(x["txt"][0]) if x["txt"] else None), x["known"]) for x in c["cmds"]]
+            rec = [(r["loc"], r["cmd"], r["arg"], r["txt"], r["idx"] >= 0) for r in got[i]]
+            res["cmds"] += len(rec)
+            if exp != rec:
+                res["drift"].append((line, exp, rec))
+        shutil.rmtree(work, True)
+        return res
+    with ThreadPoolExecutor(NCPU) as ex:
+        results = list(ex.map(shard, enumerate(tabs)))
+    sp = dict(t_gen=round(t1 - t0), t_probe=round(time.time() - t1), lines=0, commands=0, drift=0, long_shapes=len(shapes), alphabet=NA, max_len=L)
+    for r in results:
+        sp["lines"] += r["cases"]
+        sp["commands"] += r["cmds"]
+        for line, c in r["unsafe"]:
+            ctx.violation("ex command line %r: the splitter reads beyond the terminator, overruns a part buffer or stops making progress "
+                          "(ExParse.tla: bad=%s stuck=%s)" % (line, c["bad"], c["stuck"]),
+                          {"mode": "vi -s -e", "window": [24, 80], "exinit": "", "file": None, "stream": line, "stream_hex": line.encode().hex(), "model": c},
+                          {"kind": "splitter", "what": "unsafe"})
+        for line, cr in r["crashes"] + r["hangs"]:
+            m = re.search(r"SUMMARY: (\S+): (\S+)(?: \S+ in (\S+))?", cr["stderr"])
+            ctx.violation("ex command line %r (%d bytes) %s in the splitter probe: %s" %
+                          (line[:60], len(line.encode()), "does not return" if cr["rc"] == 124 else "crashes", " ".join(x for x in m.groups() if x) if m else "rc=%s" % cr["rc"]),
+                          {"mode": "vi -s -e", "window": [24, 80], "exinit": "", "file": None, "stream": line, "stream_hex": line.encode().hex(), "stderr": cr["stderr"]},
+                          {"kind": "crash", "what": "splitter", "where": (m.group(3) or "") if m else ""})
+        sp["drift"] += len(r["drift"])
+        for line, exp, rec in r["drift"][:2]:
+            if len(ctx.notes) < 6:
+                ctx.notes.append("splitter: line %r parsed as %s, ExParse.tla says %s (not a violation by itself: the model no longer describes the code)" % (line, rec, exp))
+    st["splitter"] = sp
+
+
 def replay(ctx, r):
     """re-run the stream of one replay file on a fresh build of the working tree"""
     import checks_util
@@ -161,6 +258,12 @@ def main(ctx, args):
     if args.replay_obj:
         return replay(ctx, args.replay_obj)
     rng = random.Random(ctx.seed)
+    if os.environ.get("VERIF_C05_ONLY") == "splitter":
+        st = {}
+        ctx.build()
+        splitter(ctx, st)
+        print(json.dumps(st), ctx.notes, len(ctx.violations), "violations")
+        return 0
     nA, steps, nmut, nnon, maxval = (6, 25, 3, 150, 900) if ctx.quick else (60, 40, 12, 6000, 12000)
     ctx.build()
     exs = []
@@ -216,6 +319,7 @@ def main(ctx, args):
                           ("vi" if s["vi"] else "ex", s["origin"], s["size"][0], s["size"][1], s["exinit"], r["sig"], r.get("where", "")),
                           {"mode": "vi -v" if s["vi"] else "vi -s -e", "origin": s["origin"], "window": s["size"], "exinit": s["exinit"], "file": s["file"],
                            "stream": body, "stream_hex": body.encode().hex(), "rc": r["rc"], "timed_out": r["timed_out"], "stderr": r["stderr"]}, sig)
+    splitter(ctx, st)
     # TLC validation of the recorded states
     allst = [(i, r["states"]) for i, r in enumerate(results) if r["states"]]
     rng.shuffle(allst)
@@ -271,9 +375,11 @@ def main(ctx, args):
     samples = [{"origin": s["origin"], "mode": "vi" if s["vi"] else "ex", "window": s["size"], "exinit": s["exinit"], "stream": txt(s["cps"])[:120]}
                for s in streams[::max(1, len(streams) // 4)][:4]]
     cov = {"states": st["states_validated"], "transitions": st["records"], "traces_validated_against_impl": len(streams), "samples": samples,
-           "evaluations": len(streams), "distinct_nontrivial": len({tuple(s["cps"]) for s in streams}),
+           "evaluations": len(streams) + st["splitter"]["lines"], "distinct_nontrivial": len({tuple(s["cps"]) for s in streams}) + st["splitter"]["lines"],
            "rule": "one evaluation = one command stream run to its quit command on the ASan+UBSan binary under one configuration "
-                   "(window, initial file, EXINIT options); states = recorded editor states validated by TLC under TraceInv",
+                   "(window, initial file, EXINIT options), or one command line split by ex_exec in the probe and compared with ExParse.tla "
+                   "(every line of <= %d symbols over a %d-symbol alphabet, %d long lines around the 512-byte limit); "
+                   "states = recorded editor states validated by TLC under TraceInv" % (st["splitter"]["max_len"], st["splitter"]["alphabet"], st["splitter"]["long_shapes"]),
            "stats": st,
            "explanation": "transitions = hook records produced by the runs; the sanitizers decide memory safety of every executed access, "
                           "completeness of the trace decides crash / hang, TLC decides the state invariants"}
